@@ -56,10 +56,8 @@ PLAN = {
                 technique='Verus on the mechanically extracted Err arms of alloc_try_with/try_alloc_try_with, the whole alloc_slice_try_fill_with / try_alloc_slice_* workers + dealloc contract; ownership of the error value by Kani',
                 explanation='The rewind regions are verified against rewind_post (not last => nothing changes; same chunk => finger restored; new chunk => whole chunk free again). alloc_slice_try_fill_with is verified as a whole: the initialiser is not run when the reservation fails, the error handed back is the one the failing call produced and no call follows it, the failed slice is released exactly when it still is the most recent allocation and blocks the initialiser allocated and kept stay reserved. Exactly-once delivery of E as a VALUE (not dropped, not duplicated) is checked by Kani with a drop-counting error type (bounded).'),
     'C12': dict(v=V, level='proof', k_quick=['k_shrink', 'k_grow', 'k_glue_alloc_shrink_dealloc', 'k_glue_grow_zeroed'], k_thorough=['k_shrink_odd', 'k_shrink_m8', 'k_shrink_align', 'k_shrink_notlast', 'k_grow_m8', 'k_grow_align', 'k_grow_notlast', 'k_dealloc'],
-                technique='Verus contracts of dealloc/shrink/grow for arbitrary old/new layouts; trait glue and contents by Kani',
-                explanation='Result fits the new layout (size, both alignments), Err => nothing changed, in-place moves stay inside the old block and never overlap source and '
-                            'destination, fresh blocks are disjoint from the old one; deallocate of a non-last block is a no-op. The Allocator glue (slice length, zeroed tail) and '
-                            'byte preservation are bounded Kani harnesses.'),
+                technique='Verus contracts of dealloc/shrink/grow for arbitrary old/new layouts AND of the real Alloc / Allocator trait implementations for &Bump (alloc, dealloc, realloc, allocate, deallocate, shrink, grow, grow_zeroed); contents by Kani',
+                explanation='Result fits the new layout (size, both alignments), Err => nothing changed, in-place moves stay inside the old block and never overlap source and destination, fresh blocks are disjoint from the old one; deallocate of a non-last block is a no-op and never touches memory held. The trait glue is extracted too: the returned slice has exactly the new size, realloc dispatches to shrink/grow correctly and refuses unrepresentable sizes, grow_zeroed zero-fills exactly [old size, new size) of the block it returns, errors leave block and arena untouched. The RawVec side (unit rawvec) is checked against the same realloc contract. Byte preservation itself (first min(old,new) bytes) is BOUNDED Kani (blocks <= 8 bytes) on top of the verified copy ranges.'),
     'C13': dict(v=['rawvec', 'dedup', 'vecops'], level='proof',
                 k_quick=['k_vec_insert_remove', 'k_vec_swap_remove_truncate', 'k_vec_drain', 'k_vec_append_split_off', 'k_vec_push_pop_grow', 'k_vec_shrink_moves', 'k_vec_insert_oob', 'k_drop_dedup'],
                 k_thorough=['k_vec_insert_remove_ends', 'k_vec_drain_wide', 'k_vec_reserve_shrink_small', 'k_vec_drain_filter', 'k_vec_zst', 'k_ovf_vec', 'k_vec_remove_oob',
